@@ -500,3 +500,27 @@ def deep_census(ctx, rule, last_segments, allowed):
             ok = c in allowed.get(name.split("::")[-1], ())
             ctx.ob(rule, "deep:%s<-%s" % (name.split("::")[-1], c), ok, "", "whole-program: %s is called by %s (allowed callers: %s)" % (name, c, list(allowed.get(name.split("::")[-1], ()))))
     return seen
+
+
+def zero_test_edges(fn, terms, value_pred):
+    """edges taken exactly when an integer value (whose term satisfies value_pred) is == 0 / != 0, for both
+    MIR shapes: `switchInt(Eq(v, 0))` / `switchInt(Ne(v, 0))` and a direct `switchInt(v) -> [0: .., otherwise: ..]`"""
+    zero, nonzero = [], []
+    zero += bool_edges(fn, terms, lambda c: c[0] == "bin" and c[1] == "Eq" and const_of(c[3]) == 0 and value_pred(c[2]), True)
+    nonzero += bool_edges(fn, terms, lambda c: c[0] == "bin" and c[1] == "Eq" and const_of(c[3]) == 0 and value_pred(c[2]), False)
+    zero += bool_edges(fn, terms, lambda c: c[0] == "bin" and c[1] == "Ne" and const_of(c[3]) == 0 and value_pred(c[2]), False)
+    nonzero += bool_edges(fn, terms, lambda c: c[0] == "bin" and c[1] == "Ne" and const_of(c[3]) == 0 and value_pred(c[2]), True)
+    for bb in sorted(fn.live_blocks()):
+        t = fn.blocks[bb]["term"]
+        if t["k"] != "switch" or t.get("dty") in ("bool", "isize") and M.switch_operand_def(fn, bb) is not None and M.switch_operand_def(fn, bb)["k"] == "discr":
+            continue
+        if t.get("dty") == "bool":
+            continue
+        sw = M.switch_term(fn, terms, bb)
+        if not value_pred(sw):
+            continue
+        vals = [v for v, _ in t["targets"]]
+        if vals == [0] and M.switch_target(t, 0) != t["otherwise"]:
+            zero.append((bb, M.switch_target(t, 0)))
+            nonzero.append((bb, t["otherwise"]))
+    return zero, nonzero
